@@ -250,6 +250,9 @@ pub enum HOp {
     Read(u32, u32),
     /// continue with a clone of the object
     CloneSelf,
+    /// serialise into a writer that fails after this many bytes (the call may fail; whatever it
+    /// returns, the object and the next serialisation must be unaffected)
+    FailedWrite(u16),
 }
 
 #[derive(Clone, Debug, Hash, Serialize, Deserialize)]
@@ -287,8 +290,27 @@ fn hop_strategy() -> BoxedStrategy<HOp> {
         1 => any::<u16>().prop_map(HOp::Ignore),
         2 => (0u32..6, 0u32..40).prop_map(|(l, c)| HOp::Read(l, c)),
         1 => Just(HOp::CloneSelf),
+        1 => prop_oneof![Just(0u16), 1u16..40, 40u16..400].prop_map(HOp::FailedWrite),
     ]
     .boxed()
+}
+
+struct Limited {
+    left: usize,
+}
+
+impl std::io::Write for Limited {
+    fn write(&mut self, buf: &[u8]) -> std::io::Result<usize> {
+        if self.left == 0 {
+            return Err(std::io::Error::other("disk full (harness)"));
+        }
+        let n = buf.len().min(self.left);
+        self.left -= n;
+        Ok(n)
+    }
+    fn flush(&mut self) -> std::io::Result<()> {
+        Ok(())
+    }
 }
 
 pub fn living(_t: Tier) -> BoxedStrategy<HCase> {
@@ -369,6 +391,9 @@ pub fn apply_hop(obj: &mut sourcemap::DecodedMap, op: &HOp, obs: &mut Obs) -> Re
                 let c = sm.clone();
                 *sm = c;
             }
+            HOp::FailedWrite(n) => {
+                let _ = sm.to_writer(Limited { left: usize::from(*n) });
+            }
         }
         Ok(())
     });
@@ -388,12 +413,13 @@ pub fn apply_hop(obj: &mut sourcemap::DecodedMap, op: &HOp, obs: &mut Obs) -> Re
         HOp::Ignore(_) => "op:add_to_ignore_list",
         HOp::Read(..) => "op:read-only-use",
         HOp::CloneSelf => "op:clone",
+        HOp::FailedWrite(_) => "op:write-into-a-failing-writer",
     });
     Ok(())
 }
 
 pub fn hop_mutates(op: &HOp) -> bool {
-    !matches!(op, HOp::Again | HOp::Read(..) | HOp::CloneSelf)
+    !matches!(op, HOp::Again | HOp::Read(..) | HOp::CloneSelf | HOp::FailedWrite(_))
 }
 
 fn check_living(c: &HCase, obs: &mut Obs) -> Verdict {
